@@ -373,7 +373,35 @@ func (*hPluginCodec) encode(o any) ([]byte, error) {
 	return codecPlugin.p.ObservationCodec.Encode(jObs(normalise(o)))
 }
 
+// c11InDomain: C11 quantifies over byte strings (and outcomes with missing aggregates) offered to the
+// plugin entry points and public decoders.  When the thorough tier replays the case streams of other
+// properties, two kinds of cases in them are not inputs of that kind and are not judged here:
+//   - direct calls of the Mercury consensus helpers (mercury.consensus.*): the plugins call them only
+//     after their own "at least one / f+1 parsed observations" checks, e.g. GetConsensusTimestamp on an
+//     empty list indexes out of range but no byte string reaches that call (mercury.vN.report ops cover
+//     the entry point);
+//   - report-codec Encode calls carrying a typed-nil stream value ((*Decimal)(nil) etc.): no decoder
+//     produces one (a missing aggregate is a nil interface, which is covered), or a timestamped value
+//     without an inner value (every decoder rejects it: C16 checks exactly that).
+func c11InDomain(op J) bool {
+	name := jStr(op["op"])
+	if strings.HasPrefix(name, "mercury.consensus.") {
+		return false
+	}
+	if strings.HasPrefix(name, "evm.encode.") {
+		for _, v := range jArr(jObj(op["report"])["values"]) {
+			if strings.HasPrefix(jStr(jObj(v)["t"]), "nil-") || cdcHasNilInner(v) {
+				return false
+			}
+		}
+	}
+	return true
+}
+
 func monC11(op J, res any) (viol []Violation, nontrivial bool) {
+	if !c11InDomain(op) {
+		return nil, false
+	}
 	r := jObj(res)
 	nontrivial = jStr(op["raw"]) != "" || op["obs"] != nil || op["outcome"] != nil || op["obsRaw"] != nil
 	if r == nil || r["panic"] == nil {
